@@ -15,6 +15,7 @@ type cval struct {
 	sort  string
 	isNil bool
 	addr  string // for a struct value read from an embedded field: the address of that field
+	cell  string // a captured variable: the term is the content of this cell in the state the expression is evaluated in
 }
 
 type cenv struct {
@@ -190,6 +191,9 @@ func (env *cenv) eval(e *CExpr) cval {
 		return cval{term: smtString(e.Name), sort: "String", typ: types.Typ[types.String]}
 	case "id":
 		if v, ok := env.vars[e.Name]; ok {
+			if v.cell != "" {
+				v.term = env.g.loadPtr(env.cur, v.cell, v.typ)
+			}
 			return v
 		}
 		switch e.Name {
@@ -248,7 +252,7 @@ func (env *cenv) eval(e *CExpr) cval {
 		if _, ok := t.Underlying().(*types.Pointer); ok {
 			return cval{term: fmt.Sprintf("(ival %s)", b.term), typ: t, sort: "Int"}
 		}
-		return cval{term: g.unbox(t, fmt.Sprintf("(ival %s)", b.term)), typ: t, sort: g.s.sortOf(t)}
+		return cval{term: g.unboxIface(t, b.term), typ: t, sort: g.s.sortOf(t)}
 	case "un":
 		a := env.eval(e.Args[0])
 		switch e.Name {
@@ -548,6 +552,14 @@ func (env *cenv) call(e *CExpr) cval {
 		}
 		_, t := env.sortOfTypeName(args[1].Name)
 		return env.boolv(fmt.Sprintf("(= (itag %s) %d)", a.term, g.eng.TagOf(t)))
+	case "as":
+		// as(x, T): Go conversion between types of the same representation (named string / integer types)
+		a := env.eval(args[0])
+		srt, t := env.sortOfTypeName(args[1].Name)
+		if srt != a.sort {
+			env.fail("as(%s, %s): different representation (%s vs %s)", args[0], args[1].Name, a.sort, srt)
+		}
+		return cval{term: a.term, typ: t, sort: srt}
 	case "isnil":
 		a := env.eval(args[0])
 		switch a.sort {
@@ -705,10 +717,21 @@ func (env *cenv) call(e *CExpr) cval {
 		if a.sort == "Iface" {
 			return a
 		}
-		if a.typ == nil || !isPointerLike(a.typ) {
-			env.fail("iface(%s): not a pointer", args[0])
+		if a.typ == nil {
+			env.fail("iface(%s): untyped value", args[0])
 		}
-		return cval{term: fmt.Sprintf("(mk-iface %d %s)", g.eng.TagOf(a.typ), a.term), sort: "Iface"}
+		return cval{term: g.makeIface(a.typ, a.term), sort: "Iface"}
+	case "deref":
+		// deref(p): the content of the cell p points to, in the state the expression is evaluated in
+		a := env.eval(args[0])
+		if a.typ == nil {
+			env.fail("deref(%s): untyped value", args[0])
+		}
+		pt, ok := a.typ.Underlying().(*types.Pointer)
+		if !ok {
+			env.fail("deref(%s): not a pointer", args[0])
+		}
+		return cval{term: g.loadPtr(env.cur, a.term, pt.Elem()), typ: pt.Elem(), sort: g.s.sortOf(pt.Elem())}
 	case "tagof":
 		a := env.eval(args[0])
 		return env.intv(fmt.Sprintf("(itag %s)", a.term))
